@@ -200,7 +200,8 @@ func (w *World) storeOne(plan Plan) {
 		have[it] = true
 	}
 	for it := range planItems(plan) {
-		if !have[it] {
+		// asked of the real bloom (round 6: events may carry keys at positions outside the universe of the abstraction)
+		if !have[it] && (b.Block.EventsBloom == nil || !b.Block.EventsBloom.Test(it.bytes())) {
 			w.Res.Violate(lib.Violation{Sig: "header-bloom-misses-event-item",
 				What:   fmt.Sprintf("block %d: EventsBloom does not contain %s of one of its events", b.Block.Number, it),
 				Replay: w.replay()})
@@ -433,6 +434,9 @@ func preLine(pre []*pending.PreConfirmed, plans []Plan) string {
 }
 
 func (w *World) runQuery(q Q) {
+	if len(q.F.Keys) > 62 {
+		w.Res.Hit("query:key-position-at-the-varint-boundary")
+	}
 	w.ask("mark")
 	head := len(w.Chain) - 1
 	if q.PreBack > head {
